@@ -24,12 +24,12 @@ def make_cases(tier, rng):
     # every cookie combination (with a random serve configuration each)
     for cc in CCFG:
         for ce in CENV:
-            for _ in range(1 if tier == "quick" else 4):
+            for _ in range(1 if tier == "quick" else 100):
                 add(cc, ce, rng.choice(MUX), rng.choice(TLS))
     # with the right cookie: every mux-variable class x TLS mode
     for mv in MUX:
         for tls in TLS:
-            for _ in range(2 if tier == "quick" else 10):
+            for _ in range(2 if tier == "quick" else 250):
                 add("normal", "exact", mv, tls)
     return cases
 
